@@ -35,6 +35,18 @@ func (d *FieldDescriptor) cast() string {
 	}
 }
 
+// castable returns the type the field is indexed with and
+// false if the field is of a type which cannot be indexed
+func (d *FieldDescriptor) castable() (cast string, ok bool) {
+	switch d.Type {
+	case "int", "int8", "int16", "int32", "int64", "time.Time",
+		"uint", "uint8", "uint16", "uint32", "uint64",
+		"float32", "float64", "string":
+		return d.cast(), true
+	}
+	return "", false
+}
+
 func (d *FieldDescriptor) Transform(o interface{}) {
 	switch i := o.(type) {
 	case Object:
